@@ -974,6 +974,36 @@ def main():
         except Exception as ex:
             problems = [("harness", -1, "oracle could not evaluate the case: %r" % (ex,))]
         record(c, problems, "[second pass, other memory layout]")
+    # ---- third pass: the differentiated argument reaches the primitive as the OUTPUT of other primitives (a doubly
+    #      transposed / doubly reversed view, a sum with zero, a broadcast-and-slice) and the result leaves through an
+    #      identity indexing: same function of the same point, so the same verdicts - catches rules that depend on how
+    #      their input or cotangent was produced (views, memory order, owner) ----
+    def pre_id(m, z, kind):
+        if not hasattr(z, "shape") or getattr(z, "ndim", 0) == 0:
+            return z + 0.0 if kind != 2 else z * 1.0
+        if kind == 0:
+            return m.swapaxes(m.swapaxes(z, 0, -1), 0, -1) if z.ndim >= 2 else z[::-1][::-1]
+        if kind == 1:
+            return (z + 0.0)[...]
+        return m.reshape(m.reshape(z, (-1,))[::-1][::-1], z.shape)
+    third = [c for c in clean if rng.random() < (0.4 if cfg.get("tier") == "thorough" else 0.12)]
+    for c in third:
+        kind_ = rng.randrange(3)
+
+        def f3(m, *a, c=c, kind_=kind_):
+            a = [pre_id(m, ai, kind_) if (i in c.diff and not isinstance(ai, (float, complex, int))) else ai for i, ai in enumerate(a)]
+            y = c.f(m, *a)
+            if isinstance(getattr(y, "_value", y), (tuple, list)):
+                return y
+            return y[...] if getattr(y, "ndim", 0) else y
+        c3 = Case(c.prim, c.tag, f3, c.args, c.diff, c.exact, modes=c.modes, step=c.step)
+        c3.pairing_only, c3.flat_im = c.pairing_only, c.flat_im
+        out["dist"]["third-pass (argument produced by other primitives)"] = out["dist"].get("third-pass (argument produced by other primitives)", 0) + 1
+        try:
+            problems, _ = run_case(c3, rng, props)
+        except Exception as ex:
+            problems = [("harness", -1, "oracle could not evaluate the case: %r" % (ex,))]
+        record(c, problems, "[third pass: argument and result pass through identity-valued primitives, kind %d]" % kind_)
     # ---- concurrent pass (C20): the same verdicts when several cases run at once in different threads
     if cfg.get("threads"):
         import threading
